@@ -7,6 +7,7 @@ import RQ.Model.Validators
 import Mathlib.Tactic.Linarith
 import Mathlib.Tactic.Ring
 import Mathlib.Tactic.SplitIfs
+import RQ.Lemmas.WorldE
 
 namespace RQ.Props.C10
 open RQ.Q
@@ -511,5 +512,28 @@ example : let cfg : InsCfg := ⟨true, 10, 1/10, 1, false, 1⟩
   constructor
   · simp only [FInvFull]; decide
   · decide +kernel
+
+
+/-! ### whole runs of the composed world (`RQ/Model/World.lean`) -/
+
+/-- **positions never go negative, for whole runs of the whole system**: with the position validators on (the default), start from any
+well-formed world and let the strategy do anything — orders of positive quantity with fresh ids through any API, cancels, cash flows —
+on any market over any number of days, provided corporate actions and settlement meet empty books (which the executor's day
+structure guarantees: `C08.world_day_structure_keeps_books_quiet`) and split ratios are positive.  Then in EVERY state the run reaches
+no position quantity of any account, long or short, stock or future, is negative — and, stronger, what the closing orders resting in
+the broker's books may still close never exceeds what the position holds (`WorldE.run_closeInv`, a 1 600-line proof through validator,
+broker, matcher and accounts composed). -/
+theorem world_positions_never_negative (w : World) (ins : List WIn) (hv : RQ.Lemmas.WorldE.ValidatorsOn w)
+    (hwf : RQ.Lemmas.WorldE.HoldingsWF w) (hb : RQ.Lemmas.WorldC.BooksWF w) (hn : RQ.Lemmas.WorldC.IdsNodup w)
+    (hinv : RQ.Lemmas.WorldE.CloseInv w) (hok : RQ.Lemmas.WorldE.RunOk w ins) :
+    ∀ (k : Nat) (a : Acct), (w.run ins).1.pf.accounts[k]? = some a → ∀ h ∈ a.holdings, 0 ≤ h.long.qty ∧ 0 ≤ h.short.qty :=
+  RQ.Lemmas.WorldE.run_qty_nonneg w ins hv hwf hb hn hinv hok
+
+/-- the stronger invariant itself: resting closes ≤ quantity held, in every reachable state -/
+theorem world_resting_closes_within_holding (w : World) (ins : List WIn) (hv : RQ.Lemmas.WorldE.ValidatorsOn w)
+    (hwf : RQ.Lemmas.WorldE.HoldingsWF w) (hb : RQ.Lemmas.WorldC.BooksWF w) (hn : RQ.Lemmas.WorldC.IdsNodup w)
+    (hinv : RQ.Lemmas.WorldE.CloseInv w) (hok : RQ.Lemmas.WorldE.RunOk w ins) :
+    RQ.Lemmas.WorldE.CloseInv (w.run ins).1 :=
+  RQ.Lemmas.WorldE.run_closeInv w ins hv hwf hb hn hinv hok
 
 end RQ.Props.C10
